@@ -64,6 +64,7 @@ type MonSwaps struct {
 	queueLen int
 	checkedHeight int64
 	kind0 map[uint64]bool // UseOracle of every pool when first seen
+	probed map[uint64]string // pool state last used by the history probes
 }
 
 var debugC04 = os.Getenv("ELYSSIM_DEBUG_C04") != ""
@@ -156,6 +157,7 @@ func (m *MonSwaps) AfterBlock(s *Sim, eb *ExecBlock) {
 			m.kind0[p.PoolId] = p.PoolParams.UseOracle // recorded in the block the pool appears in
 		}
 	}
+	m.historyProbes(s)
 	if !s.Ledger.BlockOK {
 		return // the event stream of this block is unusable (see Ledger.Ingest)
 	}
